@@ -9,6 +9,9 @@ import (
 	"github.com/grafana/carbon-relay-ng/matcher"
 )
 
+// verifSpoolBuf: size of the spool's real-time input queue (spoolbuf option) of the destinations built below
+var verifSpoolBuf = 4
+
 func verifNewDest(spool bool, connBuf, ioBuf int) *Destination {
 	keepsafe_initial_cap = 4
 	m, _ := matcher.New("", "", "", "", "", "")
@@ -19,7 +22,7 @@ func verifNewDest(spool bool, connBuf, ioBuf int) *Destination {
 		period = 20 * time.Millisecond
 		spoolDir = verifTempDir()
 	}
-	d, err := New("route", m, verifEndpointAddr(), spoolDir, spool, false, period, period, connBuf, ioBuf, 4, 12, 10, time.Hour, time.Millisecond, time.Millisecond)
+	d, err := New("route", m, verifEndpointAddr(), spoolDir, spool, false, period, period, connBuf, ioBuf, verifSpoolBuf, 12, 10, time.Hour, time.Millisecond, time.Millisecond)
 	if err != nil {
 		panic(err)
 	}
